@@ -336,6 +336,32 @@ func run(c *vf.Ctx) {
 	c.Assume("verb == function per field is asserted on string-valued and empty fields only where the verb's usage text promises the DSL function's behaviour; numeric-looking field values are left alone by sub/gsub/ssub by design")
 	c.Assume("the sub/gsub third-argument literal is interpolated with the captures of an earlier =~ (documented under 'Resetting captures'): not asserted either way")
 
+	c.Assume("case -t (title case) has no DSL counterpart: asserted per field only on values made of letter-only words separated by single spaces")
+	c.Assume("termination probes (leftpad/rightpad with an empty pad string) run the plain mlr binary under RLIMIT_CPU = 10 s (about 1000x a normal run); CPU time, not wall clock")
+	c.Assume("the reference's printf cells were validated against glibc printf and its regex safe-subset rule against Go regexp vs Python re directly (see selftest/c15.md); string-position escapes are asserted only for the table in reference-main-strings.md, regex-position escapes only for backslash+punctuation and \\A \\B \\D \\S \\W \\b \\d \\f \\n \\r \\s \\t \\v \\w \\z")
+
+	nodesCS, lenCS, nodesCI, lenCI, nodesU8, lenU8 := regexBounds(c.Quick())
+	maxSyms := 3
+	if !c.Quick() {
+		maxSyms = 4
+	}
+	nStrings, _ := allStrings(strAlphabet, maxSyms)
+	c.Extra["bounds"] = map[string]any{
+		"strings":                len(nStrings),
+		"string_max_symbols":     maxSyms,
+		"index_range":            []int{idxLo, idxHi},
+		"pad_widths":             padWidths,
+		"pad_strings":            padStrings,
+		"regex_case_sensitive":   map[string]int{"max_ast_nodes": nodesCS, "patterns": len(allRegexes(nodesCS)), "subject_max_len": lenCS, "subjects": len(wordsOver("abc", lenCS))},
+		"regex_case_insensitive": map[string]int{"max_ast_nodes": nodesCI, "patterns": len(allRegexes(nodesCI)), "subject_max_len": lenCI, "subjects": len(wordsOver("aAbc", lenCI))},
+		"regex_utf8_subjects":    map[string]int{"max_ast_nodes": nodesU8, "patterns": len(allRegexes(nodesU8)), "subject_max_len": lenU8, "subjects": len(wordsOver("aXY", lenU8))},
+		"replacement_strings":    replacements,
+		"format_strings":         len(fmtGrid(c.Quick())),
+		"format_values":          len(fmtInts) + len(fmtFloats) + 3,
+		"verb_cases":             len(verbCases(c.Quick())) + 1,
+		"capture_step_menu":      len(capMenu),
+	}
+
 	if _, err := exec.LookPath("python3"); err != nil {
 		c.Broken("python3 not found: %v", err)
 		return
